@@ -34,17 +34,17 @@ type Plan struct {
 	Junk     string `json:"junk,omitempty"`      // ignored by the handler; inflates the request (longer decode window)
 
 	// subscriptions
-	N         int  `json:"n,omitempty"`          // values to send
-	Early     int  `json:"early,omitempty"`      // values placed in the channel buffer before the handler returns
-	Pace      bool `json:"pace,omitempty"`       // each further send waits for a harness tick
-	Linger    bool `json:"linger,omitempty"`     // after N values keep the channel open until ctx is done
-	IgnoreCtx bool `json:"ignore_ctx,omitempty"` // the stream handler never looks at its context (keeps sending / lingering)
-	ElemPad   int  `json:"elem_pad,omitempty"`   // pad each stream element
-	RevStream    int `json:"rev_stream,omitempty"`     // the handler subscribes to a stream of this many elements served by the calling client
-	RevStreamPad int `json:"rev_stream_pad,omitempty"` // padding of every (odd) element of that stream
-	Bare      bool `json:"bare,omitempty"`       // subscribe through the method whose only result is the channel (no error result)
-	ChanCap   int  `json:"chan_cap,omitempty"`   // capacity of the channel the handler returns (at least Early)
-	Flood     bool `json:"flood,omitempty"`      // the producer never pauses: it keeps the returned channel's buffer full until the context ends (N is ignored)
+	N            int  `json:"n,omitempty"`              // values to send
+	Early        int  `json:"early,omitempty"`          // values placed in the channel buffer before the handler returns
+	Pace         bool `json:"pace,omitempty"`           // each further send waits for a harness tick
+	Linger       bool `json:"linger,omitempty"`         // after N values keep the channel open until ctx is done
+	IgnoreCtx    bool `json:"ignore_ctx,omitempty"`     // the stream handler never looks at its context (keeps sending / lingering)
+	ElemPad      int  `json:"elem_pad,omitempty"`       // pad each stream element
+	RevStream    int  `json:"rev_stream,omitempty"`     // the handler subscribes to a stream of this many elements served by the calling client
+	RevStreamPad int  `json:"rev_stream_pad,omitempty"` // padding of every (odd) element of that stream
+	Bare         bool `json:"bare,omitempty"`           // subscribe through the method whose only result is the channel (no error result)
+	ChanCap      int  `json:"chan_cap,omitempty"`       // capacity of the channel the handler returns (at least Early)
+	Flood        bool `json:"flood,omitempty"`          // the producer never pauses: it keeps the returned channel's buffer full until the context ends (N is ignored)
 }
 
 type Result struct {
@@ -620,7 +620,7 @@ type TokClient struct {
 	// Mismatch is declared as a subscription here, but the server method behind it returns a string: the response
 	// cannot be turned into a channel, the call stays in flight
 	Mismatch func(ctx context.Context, tok string, plan Plan) (<-chan Item, error) `rpc_method:"Tok.NotAChan"`
-	NoCtx    func(tok string, plan Plan) (Result, error) `rpc_method:"Tok.Call"`
+	NoCtx    func(tok string, plan Plan) (Result, error)                           `rpc_method:"Tok.Call"`
 }
 
 // OpenSub subscribes through Sub, or through SubBare when the plan says so (a client function without an error
